@@ -630,7 +630,7 @@ class PointwiseInnerAdjoint(PointwiseInnerBase):
         for vfi, oi, ran_wi, dom_wi in zip(self.vecfield, out,
                                            self.__ran_weights, self.weights):
             vfi.multiply(f, out=oi)
-            if not np.isclose(ran_wi, dom_wi):
+            if ran_wi != dom_wi:
                 oi *= dom_wi / ran_wi
 
     @property
